@@ -351,14 +351,14 @@ func enumerate(thread *Thread, _ *Builtin, args Tuple, kwargs []Tuple) (Value, e
 		for i := 0; iter.Next(&x); i++ {
 			pair := array[:2:2]
 			array = array[2:]
-			pair[0] = MakeInt(start + i)
+			pair[0] = MakeInt(start).Add(MakeInt(i))
 			pair[1] = x
 			pairs = append(pairs, pair)
 		}
 	} else {
 		// non-sequence (unknown length)
 		for i := 0; iter.Next(&x); i++ {
-			pair := Tuple{MakeInt(start + i), x}
+			pair := Tuple{MakeInt(start).Add(MakeInt(i)), x}
 			pairs = append(pairs, pair)
 		}
 	}
